@@ -1,27 +1,93 @@
 ------------------------------ MODULE TraceC14 ------------------------------
-(* Code -> spec for C14.  Each case: [s |-> statement term, py |-> outcome observed when the    *)
-(* statement was executed in isolation under CPython, flagged |-> pytype reported an error on  *)
-(* the statement's line].  Clauses:                                                            *)
-(*   oracle          py = Outcome(s)   (the specification is confirmed by the language)         *)
-(*   false-positive  flagged => Outcome(s) in {TypeError, AttributeError}                       *)
-(*   missed          Advertised(s) => flagged                                                   *)
+(* Code -> spec for C14.  The trace is a sequence of EVENTS = the lines of the replayed        *)
+(* programs in program order; the spec state (loc, hist) is advanced with the spec's own       *)
+(* actions, so that every read of a location is judged against the assignments that the        *)
+(* program really performed before it.  Every event is a record                                *)
+(*   [ev, loc, k, s, py, flagged, names, base]                                                 *)
+(*   ev      "base"   statement s of the base grammar (operands bound on earlier lines)        *)
+(*           "bind"   first assignment of kind k to a fresh location of kind loc                *)
+(*           "rebind" re-assignment of kind k to the current location                          *)
+(*           "use"    statement template s reading the current location                        *)
+(*   py      outcome observed when the line was executed under CPython (base: in isolation,    *)
+(*           history: after the preceding lines of its program)                                *)
+(*   flagged pytype reported an error on the line; names = the error names it reported         *)
+(*   base    (use) what pytype did on the base-grammar statement Resolve(s, last kind):        *)
+(*           "flagged" / "clean" / "" (not analysed in this run)                               *)
+(* Clauses:                                                                                    *)
+(*   oracle           py = Outcome(..)  (the specification is confirmed by the language)        *)
+(*   not-a-behaviour  the event is not enabled in the spec state (driver fault)                *)
+(*   false-positive   flagged => Outcome in {TypeError, AttributeError}                        *)
+(*   missed           Advertised(..) => flagged                                                *)
+(*   wrong-class      the reported error name belongs to the other exception class             *)
+(* For a read of a location, false-positive / missed are attributed by the spec:               *)
+(*   (plain)  pytype did the same on the base statement: not a matter of the history           *)
+(*   -stale   an OVERWRITTEN kind of the history explains pytype's answer                      *)
+(*   -hist    neither                                                                          *)
 EXTENDS OpDispatch, IOUtils, TLCExt
 
 Cases == JsonDeserialize(IOEnv.TRACE_FILE)
 VARIABLE i
 
-Fails(c) ==
-  LET o == Outcome(c.s) IN
-  (IF c.py # o THEN {"oracle"} ELSE {})
-  \cup (IF c.flagged /\ o \notin {"TypeError", "AttributeError"} THEN {"false-positive"} ELSE {})
-  \cup (IF Advertised(c.s) /\ ~c.flagged THEN {"missed"} ELSE {})
+(* error names of pytype and the exception class they stand for: pinned here, a name outside  *)
+(* this table on a judged line is reported                                                     *)
+ErrClass == [ x \in {"unsupported-operands", "not-callable", "wrong-arg-types", "missing-parameter",
+                     "wrong-arg-count"} |-> "TypeError" ]
+            @@ [ x \in {"attribute-error"} |-> "AttributeError" ]
+ToSet(q) == {q[x] : x \in DOMAIN q}
 
-TInit == i = 1 /\ stmt = <<"none", "", "", "">> /\ out = "ok" /\ TLCSet(1, FALSE)
+ClassFails(c, o) ==
+  IF ~c.flagged THEN {}
+  ELSE (IF \E n \in ToSet(c.names) : n \notin DOMAIN ErrClass THEN {"unknown-error-name"} ELSE {})
+       \cup (IF IsErr(o) /\ \A n \in ToSet(c.names) : n \in DOMAIN ErrClass => ErrClass[n] # o
+               THEN {"wrong-class"} ELSE {})
+
+BaseFails(c) ==
+  LET o == Outcome(c.s) IN
+  (IF c.s \notin Statements THEN {"not-a-behaviour"} ELSE {})
+  \cup (IF c.py # o THEN {"oracle"} ELSE {})
+  \cup (IF c.flagged /\ ~IsErr(o) THEN {"false-positive"} ELSE {})
+  \cup (IF Advertised(c.s) /\ ~c.flagged THEN {"missed"} ELSE {})
+  \cup ClassFails(c, o)
+
+AssignFails(c) ==
+  (IF c.ev = "bind" /\ ~(c.loc \in LocKinds /\ c.k \in Operands) THEN {"not-a-behaviour"} ELSE {})
+  \cup (IF c.ev = "rebind" /\ ~(loc = c.loc /\ CanRebind(hist, c.k)) THEN {"not-a-behaviour"} ELSE {})
+  \cup (IF c.py # "ok" THEN {"oracle"} ELSE {})
+  \cup (IF c.flagged THEN {"false-positive-assign"} ELSE {})
+
+UseFails(c) ==
+  IF ~(loc = c.loc /\ Len(hist) >= 1 /\ c.s \in Templates(Last(hist)) \cup MidTemplates
+       /\ Resolve(c.s, Last(hist)) \in Statements)
+    THEN {"not-a-behaviour"}
+  ELSE
+    LET rs == Resolve(c.s, Last(hist))
+        o == Outcome(rs)
+        asBase == c.base = (IF c.flagged THEN "flagged" ELSE "clean")
+        stale == \E j \in 1..(Len(hist) - 1) : IsErr(Outcome(Resolve(c.s, hist[j]))) = c.flagged
+        suffix == IF asBase THEN "" ELSE IF stale THEN "-stale" ELSE "-hist"
+    IN (IF c.py # o THEN {"oracle"} ELSE {})
+       \cup (IF c.flagged /\ ~IsErr(o) THEN {"false-positive" \o suffix} ELSE {})
+       \cup (IF Advertised(rs) /\ ~c.flagged THEN {"missed" \o suffix} ELSE {})
+       \cup ClassFails(c, o)
+
+Fails(c) ==
+  CASE c.ev = "base" -> BaseFails(c)
+    [] c.ev \in {"bind", "rebind"} -> AssignFails(c)
+    [] c.ev = "use" -> UseFails(c)
+    [] OTHER -> {"not-a-behaviour"}
+
+TInit == /\ i = 1 /\ stmt = NoStmt /\ out = "ok" /\ loc = "none" /\ plan = <<>> /\ hist = <<>>
+         /\ TLCSet(1, FALSE)
 TNext == /\ i <= Len(Cases)
-         /\ i' = i + 1 /\ UNCHANGED <<stmt, out>>
+         /\ i' = i + 1
+         /\ LET c == Cases[i] IN
+              CASE c.ev = "bind" -> loc' = c.loc /\ hist' = <<c.k>>
+                [] c.ev = "rebind" -> hist' = Append(hist, c.k) /\ UNCHANGED loc
+                [] OTHER -> UNCHANGED <<loc, hist>>
+         /\ UNCHANGED <<stmt, out, plan>>
          /\ (i' > Len(Cases) => TLCSet(1, TRUE))
 Ok == i <= Len(Cases) =>
         LET f == Fails(Cases[i]) IN
-          f = {} \/ PrintT(<<"BAD", ToJson([i |-> i, fails |-> f])>>)
+          f = {} \/ PrintT(<<"BAD", ToJson([i |-> i, fails |-> f, h |-> hist])>>)
 Done == TLCGet(1)
 =============================================================================
